@@ -46,9 +46,9 @@ def gen_ops(rng, decls, comments):
 
 def sval(rng, t):
     if t == 'int':
-        return str(rng.choice(G.INTS))
+        return str(rng.choice(G.INTS + [-9223372036854775808]))
     if t == 'float':
-        return fhex(rng.choice(G.FLOATS + [1e15, -3.75e-3, 1 / 3.0]))
+        return fhex(rng.choice(G.FLOATS + [1e15, -3.75e-3, 1 / 3.0, 1e56, 1e57, -1e58, 1e63, 1e64, 1e100, -1e300, 1.7976931348623157e308, 1e-300, 123456789012345678.0]))
     if t == 'bool':
         return str(rng.randint(0, 1))
     return hx(rand_bytes(rng))
